@@ -1,3 +1,2 @@
--- This module serves as the root of the `MiniVecProof` library.
--- Import modules here that should be built as part of the library.
-import MiniVecProof.Basic
+import MiniVecProof.Model.Basic
+import MiniVecProof.Model.GM
